@@ -48,7 +48,7 @@ theorem C01_port_scan (s : Spec) (content : List Line) (h : PairSpecOK s content
       (∀ r ∈ rs, r.err = none ∨ r.err = some .noMAC) ∧
       ((s.cache = none ∨ ∃ c g, s.cache = some (c, some g)) → ∀ r ∈ rs, r.err = none) :=
   Proofs.Gen.port_scan_cover cyclicGroups C04.table_ok C04.table_sorted C04.Pmax_value s content h
-    chunkSize emptyRunsOnce chunk_facts.1 chunk_facts.2 dp di
+    chunkSize emptyRunsOnce chunk_facts.1 chunk_facts.2 dp di allOk rfl (fun _ _ => rfl)
 
 /-- **C01 for socks / docker / elastic** (one engine run over all ranges, no ARP stage) -/
 theorem C01_generic (s : Spec) (content : List Line) (h : PairSpecOK s content) (dp di : Draws) :
@@ -77,6 +77,6 @@ example : PairSpecOK
     { src := .subnet (some { bytes := 4, base := 167772160, ones := 30, bits := 32 }),
       ports := [⟨22, 23⟩, ⟨80, 80⟩], excl := some [(167772161, 32)], cache := none } [] :=
   ⟨by intro r hr; simp at hr; rcases hr with rfl | rfl <;> decide,
-   ⟨⟨_, rfl, by decide⟩, by decide⟩⟩
+   ⟨⟨_, rfl, by unfold NetOK; decide⟩, by decide⟩⟩
 
 end SxVerif.C01
